@@ -89,7 +89,7 @@ Qed.
 From IpfsLog Require Import Model.ExampleHist Proofs.WfBool.
 (* non-vacuity: a destination refusing key 20 rejects the merge of a log holding an entry by 20 *)
 Example C06_nonvacuous :
-  let ops := [ONew 1 10 SHash [20]; ONew 1 20 SHash []; OAppend 0 1 1 101; OJoin 1 0 (-1);
+  let ops := [ONew 1 10 SHash [20] 0; ONew 1 20 SHash [] 0; OAppend 0 1 1 101; OJoin 1 0 (-1);
               OAppend 1 2 1 201]%N in
   wf ops /\
   exists l o, nth_error (s_logs (run ops)) 0 = Some l /\ nth_error (s_logs (run ops)) 1 = Some o /\
